@@ -10,8 +10,8 @@ QUICK_CFGS = {"C06": ["MCConn_q_close.cfg", "MCConn_q_eof.cfg", "MCConn_q_werr.c
 THOROUGH_CFGS = ["MCConn_q_close.cfg", "MCConn_q_eof.cfg", "MCConn_q_werr.cfg", "MCConn_q_coincide.cfg", "MCConn_q_cancel.cfg", "MCConn_q_ping.cfg",
                  "MCConn_q_rc_handler_eof.cfg", "MCConn_q_rc_other_eof.cfg", "MCConn_t_close.cfg", "MCConn_t_eof.cfg", "MCConn_t_cancel.cfg", "MCConn_t_werr.cfg", "MCConn_t_teardown_full.cfg",
                  "MCConn_t_ping.cfg", "MCConn_t_rc_handler_close.cfg", "MCConn_t_rc_handler_cancel.cfg", "MCConn_t_rc_handler.cfg", "MCConn_t_rc_other.cfg", "MCConn_t_rc3.cfg"]
-OUT_QUICK = ["MCConn_q_out.cfg", "MCConn_q_out_stall.cfg"]
-OUT_THOROUGH = ["MCConn_t_out.cfg"]
+OUT_QUICK = ["MCConn_q_out.cfg"]
+OUT_THOROUGH = ["MCConn_t_out.cfg", "MCConn_t_out_stall.cfg"]
 DEFECTS = {"MCConn_defect_drainonce.cfg": "D5 drain-once Close", "MCConn_defect_staleclose.cfg": "D6 stale Close of an old generation",
            "MCConn_defect_nowatcher.cfg": "D7 nobody closes on cancellation", "MCConn_defect_initcheck.cfg": "D4 initialise before the connected test"}
 
